@@ -199,13 +199,47 @@ func (vc *VC) tolerantLocal(name string, h *ssa.BasicBlock, st *State) SV {
 	if strings.HasPrefix(name, "$") {
 		return nil
 	}
-	// 3. renamed local: the only local in scope that the contract does not mention
+	// 3. renamed local
+	if c := vc.renamedLocal(name, h); c != "" {
+		if v := vc.resolveLocal(c, h, st); v != nil {
+			vc.noteTolerant(name, "local "+c+" (renamed?)")
+			return v
+		}
+	}
+	return nil
+}
+
+// renamedLocal: the local that a name which resolves nowhere most plausibly denotes after a rename — the only variable
+// updated by the loop headed by h (a named phi of the header) that the contract does not mention; failing that, the only
+// local in scope at the header that the contract does not mention. "" if there is no unique candidate.
+func (vc *VC) renamedLocal(name string, h *ssa.BasicBlock) string {
+	if strings.HasPrefix(name, "$") {
+		return ""
+	}
 	known := vc.contractIdents()
 	for p := range vc.params {
 		known[p] = true
 	}
+	phis := map[string]bool{}
+	for _, in := range h.Instrs {
+		x, ok := in.(*ssa.Phi)
+		if !ok {
+			break
+		}
+		if x.Comment != "" && x.Comment != "rangeindex" && !known[x.Comment] && !strings.Contains(x.Comment, " ") && !strings.Contains(x.Comment, ".") {
+			phis[x.Comment] = true
+		}
+	}
+	if len(phis) == 1 {
+		for c := range phis {
+			return c
+		}
+	}
 	cands := map[string]bool{}
-	for d := h; d != nil; d = d.Idom() {
+	for c := range phis {
+		cands[c] = true
+	}
+	for d := h.Idom(); d != nil; d = d.Idom() {
 		for _, in := range d.Instrs {
 			switch x := in.(type) {
 			case *ssa.Phi:
@@ -213,7 +247,7 @@ func (vc *VC) tolerantLocal(name string, h *ssa.BasicBlock, st *State) SV {
 					cands[x.Comment] = true
 				}
 			case *ssa.DebugRef:
-				if d == h || x.IsAddr {
+				if x.IsAddr {
 					continue
 				}
 				if id, ok := x.Expr.(*ast.Ident); ok && id.Name != "_" && !known[id.Name] {
@@ -224,11 +258,28 @@ func (vc *VC) tolerantLocal(name string, h *ssa.BasicBlock, st *State) SV {
 			}
 		}
 	}
-	if len(cands) != 1 {
+	if len(cands) == 1 {
+		for c := range cands {
+			return c
+		}
+	}
+	return ""
+}
+
+// tolerantAt is the counterpart of tolerantLocal for clauses evaluated at a block inside a loop (per-iteration
+// postconditions at a back edge): the renamed local is resolved at that block.
+func (vc *VC) tolerantAt(name string, from *ssa.BasicBlock) SV {
+	var h *ssa.BasicBlock
+	for hb, li := range vc.loops { // innermost loop containing the block
+		if li.body[from] && (h == nil || vc.loops[h].body[hb]) {
+			h = hb
+		}
+	}
+	if h == nil {
 		return nil
 	}
-	for c := range cands {
-		if v := vc.resolveLocal(c, h, st); v != nil {
+	if c := vc.renamedLocal(name, h); c != "" {
+		if v := vc.resolveAt(c, from); v != nil {
 			vc.noteTolerant(name, "local "+c+" (renamed?)")
 			return v
 		}
@@ -243,4 +294,101 @@ func (vc *VC) noteTolerant(name, what string) {
 	if _, dup := tolerantNoted.LoadOrStore(k, true); !dup {
 		fmt.Fprintf(os.Stderr, "govc: note: %s: contract name %q bound to %s\n", vc.key, name, what)
 	}
+}
+
+// writesNothing: syntactic check that the body of fn cannot write memory that existed before the call: no store (other
+// than to its own non-escaping locals), no map update, no channel send, no go/defer, and every call is a call of a
+// dependency function from the read-only list (fmt.Errorf, errors.New, strings.HasPrefix, …) or a conversion built-in.
+func writesNothing(fn *ssa.Function) bool {
+	if len(fn.Blocks) == 0 || len(fn.FreeVars) > 0 {
+		return false
+	}
+	for _, b := range fn.Blocks {
+		for _, in := range b.Instrs {
+			switch x := in.(type) {
+			case *ssa.Store:
+				if a, ok := x.Addr.(*ssa.Alloc); !ok || a.Heap {
+					return false
+				}
+			case *ssa.MapUpdate, *ssa.Send, *ssa.Go, *ssa.Defer, *ssa.Select, *ssa.RunDefers:
+				return false
+			case ssa.CallInstruction:
+				c := x.Common()
+				if c.IsInvoke() {
+					return false
+				}
+				switch f := c.Value.(type) {
+				case *ssa.Function:
+					if !isReadOnlyExtern(funcKey(f)) {
+						return false
+					}
+				case *ssa.Builtin:
+					switch f.Name() {
+					case "len", "cap":
+					default:
+						return false
+					}
+				default:
+					return false
+				}
+			}
+		}
+	}
+	return true
+}
+
+// inlineLeaf executes a write-free helper that has no contract and consists of ONE basic block (no branch, no loop) in
+// place, with its parameters bound to the arguments: the caller then knows what the contracts of the helper's own
+// callees say about the result (e.g. that fmt.Errorf returns a non-nil error) instead of nothing at all.
+func (vc *VC) inlineLeaf(callee *ssa.Function, args []SV, st *State, reach string, out *SV) (ok bool) {
+	if len(callee.Blocks) != 1 || len(callee.Params) != len(args) || vc.inlining > 0 || vc.dry > 0 && false {
+		return false
+	}
+	blk := callee.Blocks[0]
+	if len(blk.Instrs) > 12 {
+		return false
+	}
+	var ret *ssa.Return
+	for _, in := range blk.Instrs {
+		switch x := in.(type) {
+		case *ssa.DebugRef, *ssa.Call, *ssa.MakeInterface, *ssa.ChangeInterface, *ssa.ChangeType, *ssa.Convert, *ssa.BinOp, *ssa.Extract:
+		case *ssa.Return:
+			ret = x
+		default:
+			return false
+		}
+	}
+	if ret == nil {
+		return false
+	}
+	vc.inlining++
+	defer func() { vc.inlining-- }()
+	for i, p := range callee.Params {
+		vc.vals[p] = args[i]
+	}
+	for _, in := range blk.Instrs {
+		if in == ssa.Instruction(ret) {
+			break
+		}
+		vc.exec(blk, in, st, reach)
+	}
+	var rs []SV
+	for _, r := range ret.Results {
+		rs = append(rs, vc.val(r))
+	}
+	switch len(rs) {
+	case 0:
+		return true // *out keeps the (unused) fresh result
+	case 1:
+		*out = rs[0]
+	default:
+		tup := St{}
+		if t, isSt := (*out).(St); isSt {
+			tup.Typ = t.Typ
+		}
+		tup.F = rs
+		*out = tup
+	}
+	vc.eng.note("repo function " + funcKey(callee) + " called from " + vc.key + " has no contract: single-block write-free helper executed in place")
+	return true
 }
